@@ -21,37 +21,74 @@ Proof. intros [a1 a2] [b1 b2]. unfold op_eqb. cbn. rewrite (N.eqb_sym a1), (N.eq
 
 (* ================================================================ C09: receiving does not touch the ledger *)
 
+(* the state insertMemPoolTx + insertUnminedInputs produce *)
+Definition inserted (s : pstate) (t : tx) (ins : list rel_in) : pstate :=
+  set_uinputs (set_unmined s (um_put (ps_unmined s) (t_id t) (USer t)))
+    (fold_left (fun ui ri => ui_append ui (ri_prev ri) (t_id t)) ins
+               (ps_uinputs (set_unmined s (um_put (ps_unmined s) (t_id t) (USer t))))).
+
+(* what receive_store can return: the state is untouched (already pending without relevant outputs,
+   or already mined), or the transaction is inserted; unmined credits and unmined deposit rows may be
+   added on top *)
+Lemma receive_store_shape :
+  forall p own n s t s', receive_store p own n s t = POk (Some s') ->
+    t_cb t = false /\
+    exists ins, filter_ins_unmined own (lookup_pending n (ps_unmined s)) (t_ins t) 0%N = Ok ins /\
+      let s1 := match um_get (ps_unmined s) (t_id t) with
+                | Some _ => s
+                | None => if tx_recorded s (t_id t) then s else inserted s t ins
+                end in
+      ps_w s' = ps_w s1 /\ ps_blocks s' = ps_blocks s1 /\ ps_game s' = ps_game s1 /\
+      ps_unmined s' = ps_unmined s1 /\ ps_uinputs s' = ps_uinputs s1.
+Proof.
+  intros p own n s t s' H. unfold receive_store in H.
+  destruct (t_cb t) eqn:Ecb.
+  { cbn in H. destruct (filter_outs own (t_outs t) 0%N); discriminate. }
+  split; [reflexivity|].
+  destruct (filter_ins_unmined own (lookup_pending n (ps_unmined s)) (t_ins t) 0%N) as [ins|e]; [|discriminate].
+  exists ins. split; [reflexivity|]. cbv zeta. fold (inserted s t ins) in H.
+  set (outs := filter_outs own (t_outs t) 0%N) in *.
+  assert (Hfin : forall x,
+            (if match um_get (ps_unmined s) (t_id t) with Some _ => false | None => tx_recorded s (t_id t) end
+             then POk (Some s)
+             else match outs with
+                  | [] => POk (Some (match um_get (ps_unmined s) (t_id t) with Some _ => s | None => inserted s t ins end))
+                  | _ :: _ =>
+                      match add_ucredits p (credits (ps_w (match um_get (ps_unmined s) (t_id t) with Some _ => s | None => inserted s t ins end)))
+                                         (ps_ucredits (match um_get (ps_unmined s) (t_id t) with Some _ => s | None => inserted s t ins end)) (t_id t) outs with
+                      | PErr e => PErr e
+                      | POk ucs => POk (Some (set_ugame (set_ucredits (match um_get (ps_unmined s) (t_id t) with Some _ => s | None => inserted s t ins end) ucs)
+                                                        (add_ugame (ps_ugame (match um_get (ps_unmined s) (t_id t) with Some _ => s | None => inserted s t ins end)) (t_id t) outs)))
+                      end
+                  end) = POk (Some x) ->
+            let s1 := match um_get (ps_unmined s) (t_id t) with
+                      | Some _ => s
+                      | None => if tx_recorded s (t_id t) then s else inserted s t ins
+                      end in
+            ps_w x = ps_w s1 /\ ps_blocks x = ps_blocks s1 /\ ps_game x = ps_game s1 /\
+            ps_unmined x = ps_unmined s1 /\ ps_uinputs x = ps_uinputs s1).
+  { intros x Hx. cbv zeta. destruct (um_get (ps_unmined s) (t_id t)) as [v|].
+    - destruct outs as [|o outs'].
+      + inversion Hx; subst x. repeat split.
+      + destruct (add_ucredits p (credits (ps_w s)) (ps_ucredits s) (t_id t) (o :: outs')); [|discriminate].
+        inversion Hx; subst x. repeat split.
+    - destruct (tx_recorded s (t_id t)).
+      + inversion Hx; subst x. repeat split.
+      + destruct outs as [|o outs'].
+        * inversion Hx; subst x. repeat split.
+        * destruct (add_ucredits p (credits (ps_w (inserted s t ins))) (ps_ucredits (inserted s t ins)) (t_id t) (o :: outs')); [|discriminate].
+          inversion Hx; subst x. repeat split. }
+  destruct ins as [|i ins']; destruct outs as [|o outs'] eqn:Eo; try discriminate; apply Hfin; exact H.
+Qed.
+
 (* receive_store never changes the mined side: credits, sync, block records, mined deposit rows *)
 Lemma receive_store_mined :
   forall p own n s t s', receive_store p own n s t = POk (Some s') ->
     ps_w s' = ps_w s /\ ps_blocks s' = ps_blocks s /\ ps_game s' = ps_game s.
 Proof.
-  intros p own n s t s' H. unfold receive_store in H.
-  destruct (if t_cb t then Ok [] else filter_ins_unmined own (lookup_pending n (ps_unmined s)) (t_ins t) 0%N) as [ins|e]; [|discriminate].
-  set (outs := filter_outs own (t_outs t) 0%N) in *.
-  set (s1 := match um_get (ps_unmined s) (t_id t) with
-             | Some _ => s
-             | None => set_uinputs (set_unmined s (um_put (ps_unmined s) (t_id t) (USer t)))
-                         (fold_left (fun ui ri => ui_append ui (ri_prev ri) (t_id t)) ins
-                                    (ps_uinputs (set_unmined s (um_put (ps_unmined s) (t_id t) (USer t)))))
-             end) in *.
-  assert (Hs1 : ps_w s1 = ps_w s /\ ps_blocks s1 = ps_blocks s /\ ps_game s1 = ps_game s).
-  { subst s1. destruct (um_get (ps_unmined s) (t_id t)); cbn; auto. }
-  destruct Hs1 as (Hw & Hb & Hg).
-  assert (Hfin : forall x, (if t_cb t then PErr ECoinbaseUnmined
-                 else match outs with
-                      | [] => POk (Some s1)
-                      | _ :: _ => match add_ucredits p (credits (ps_w s1)) (ps_ucredits s1) (t_id t) outs with
-                                  | PErr e => PErr e
-                                  | POk ucs => POk (Some (set_ugame (set_ucredits s1 ucs) (add_ugame (ps_ugame s1) (t_id t) outs)))
-                                  end
-                      end) = POk (Some x) -> ps_w x = ps_w s /\ ps_blocks x = ps_blocks s /\ ps_game x = ps_game s).
-  { intros x Hx. destruct (t_cb t); [discriminate|].
-    destruct outs as [|o outs'].
-    - inversion Hx; subst x. auto.
-    - destruct (add_ucredits p (credits (ps_w s1)) (ps_ucredits s1) (t_id t) (o :: outs')); [|discriminate].
-      inversion Hx; subst x. cbn. auto. }
-  destruct ins as [|i ins']; destruct outs as [|o outs'] eqn:Eo; try discriminate; apply Hfin; exact H.
+  intros p own n s t s' H. destruct (receive_store_shape _ _ _ _ _ _ H) as (_ & ins & _ & Hs). cbv zeta in Hs.
+  destruct Hs as (A & B & C & _ & _). rewrite A, B, C.
+  destruct (um_get (ps_unmined s) (t_id t)); [repeat split|]. destruct (tx_recorded s (t_id t)); repeat split.
 Qed.
 
 Theorem receive_tx_not_counted :
@@ -160,7 +197,7 @@ Theorem mature_iff_consensus :
     | None => True
     end.
 Proof.
-  intros p bp st c Hm Hbl Hcls Hb Hh. cbv zeta. unfold mature, confs. rewrite Hm. unfold maturity_of, csv_operand.
+  intros p bp st c Hm Hbl Hcls Hb Hh. cbv zeta. unfold mature, confs. rewrite Hm. unfold maturity_of, script_maturity, csv_operand.
   assert (P32 : 2 ^ 32 = 4294967296) by reflexivity.
   destruct (c_class c) as [|f| | |] eqn:Ec; try contradiction.
   - rewrite sequence_lock_active_iff by lia. rewrite Z.leb_le. lia.
@@ -575,36 +612,18 @@ Qed.
 Lemma receive_store_pinv :
   forall p own n s t s', tx_ordered t -> pinv s -> receive_store p own n s t = POk (Some s') -> pinv s'.
 Proof.
-  intros p own n s t s' Ht [Ho Hb] H. unfold receive_store in H.
-  destruct (if t_cb t then Ok [] else filter_ins_unmined own (lookup_pending n (ps_unmined s)) (t_ins t) 0%N) as [ins|e] eqn:Eins; [|discriminate].
+  intros p own n s t s' Ht [Ho Hb] H.
+  destruct (receive_store_shape _ _ _ _ _ _ H) as (Ecb & ins & Eins & Hs). cbv zeta in Hs.
+  destruct Hs as (_ & B & _ & _ & E).
   assert (Hins : forall ri, In ri ins -> (fst (ri_prev ri) < t_id t)%N).
-  { intros ri Hri. destruct (t_cb t).
-    - inversion Eins; subst. destruct Hri.
-    - apply Ht. eapply filter_ins_unmined_prev; eauto. }
-  set (outs := filter_outs own (t_outs t) 0%N) in *.
-  set (s1 := match um_get (ps_unmined s) (t_id t) with
-             | Some _ => s
-             | None => set_uinputs (set_unmined s (um_put (ps_unmined s) (t_id t) (USer t)))
-                         (fold_left (fun ui ri => ui_append ui (ri_prev ri) (t_id t)) ins
-                                    (ps_uinputs (set_unmined s (um_put (ps_unmined s) (t_id t) (USer t)))))
-             end) in *.
-  assert (Hs1 : pinv s1).
-  { subst s1. destruct (um_get (ps_unmined s) (t_id t)); [split; assumption|]. split; [|exact Hb].
-    cbn. apply (fold_append_ordered rel_in ri_prev); assumption. }
-  assert (Hfin : forall x, (if t_cb t then PErr ECoinbaseUnmined
-                 else match outs with
-                      | [] => POk (Some s1)
-                      | _ :: _ => match add_ucredits p (credits (ps_w s1)) (ps_ucredits s1) (t_id t) outs with
-                                  | PErr e => PErr e
-                                  | POk ucs => POk (Some (set_ugame (set_ucredits s1 ucs) (add_ugame (ps_ugame s1) (t_id t) outs)))
-                                  end
-                      end) = POk (Some x) -> pinv x).
-  { intros x Hx. destruct (t_cb t); [discriminate|].
-    destruct outs as [|o outs'].
-    - inversion Hx; subst x. exact Hs1.
-    - destruct (add_ucredits p (credits (ps_w s1)) (ps_ucredits s1) (t_id t) (o :: outs')); [|discriminate].
-      inversion Hx; subst x. exact Hs1. }
-  destruct ins as [|i ins']; destruct outs as [|o outs'] eqn:Eo; try discriminate; apply Hfin; exact H.
+  { intros ri Hri. apply Ht. eapply filter_ins_unmined_prev; eauto. }
+  split.
+  - unfold ui_ordered. rewrite E. destruct (um_get (ps_unmined s) (t_id t)); [exact Ho|].
+    destruct (tx_recorded s (t_id t)); [exact Ho|]. unfold inserted. cbn [ps_uinputs set_uinputs set_unmined].
+    apply (fold_append_ordered rel_in ri_prev); assumption.
+  - intros r0 t0 Hr0 Ht0. rewrite B in Hr0.
+    destruct (um_get (ps_unmined s) (t_id t)); [exact (Hb r0 t0 Hr0 Ht0)|].
+    destruct (tx_recorded s (t_id t)); exact (Hb r0 t0 Hr0 Ht0).
 Qed.
 
 Lemma br_add_in :
